@@ -43,7 +43,7 @@ var (
 	tcDecStream = []string{"types_DecryptStreamTo(secret []byte)", "types_DecryptStreamTo(secret string)"}
 )
 
-const nWriterKinds = 5
+const nWriterKinds = 9
 
 // writerKindCounter[dec][kind]
 var writerKindCounter = func() map[bool][]string {
